@@ -55,15 +55,18 @@ theorem exec_unit_of_isOk {m : CM Rat Unit} {c : Conv Rat} (h : isOk (CM.exec m 
     | ok u => rfl
     | error e => rw [hx] at h; cases h
 
-theorem reach1 : Reach σd c1 := Reach.init c1_graphOK rfl
+theorem c1_graphWF : GraphWF c1 :=
+  ⟨by intro a b m h; simp [c1, c0, Table.row] at h, by intro a b m h; simp [c1, c0, Table.row] at h⟩
+
+theorem reach1 : Reach σd c1 := Reach.init c1_graphOK c1_graphWF rfl
 
 theorem reach2 : Reach σd c2 :=
   Reach.equate (a := ⟨.int 1, A⟩) (b := ⟨.int 3, mIdx⟩) reach1 (by decide +kernel) (by decide +kernel)
-    (by decide +kernel) (exec_unit_of_isOk (by decide +kernel))
+    (by decide +kernel) (by decide +kernel) (exec_unit_of_isOk (by decide +kernel))
 
 theorem reach3 : Reach σd c3 :=
   Reach.equate (a := ⟨.int 1, B⟩) (b := ⟨.int 4, A⟩) reach2 (by decide +kernel) (by decide +kernel)
-    (by decide +kernel) (exec_unit_of_isOk (by decide +kernel))
+    (by decide +kernel) (by decide +kernel) (exec_unit_of_isOk (by decide +kernel))
 
 theorem reach4 : Reach σd c4 := Reach.units powers reach3
 
